@@ -1,6 +1,7 @@
 import Sismic.Proofs.Edit
 import Sismic.Proofs.Rename
 import Sismic.Proofs.EquivPlan
+import Sismic.Proofs.EquivRun
 import Sismic.Props.C07
 import Sismic.Props.C02
 /-!
@@ -107,6 +108,112 @@ theorem stabilisation_commutes_with_renaming {S : Name → Prop} {ρ : Name → 
 
 /-- the substituted statechart is an instance -/
 example (ρ : Name → Name) (c : Chart) : IsRen ρ id c (c.mapNames ρ) := isRen_mapNames ρ c
+
+/-! ### … and so does the whole interpreter
+
+`EnvR ρ ι C S env env'`: `env'` runs the relabelled statechart (`IsRen`), `ρ` is injective and
+order-preserving on the names `S` the statechart mentions, and neither the evaluators nor the
+listeners of the two runs can tell: asked about the relabelled object in the relabelled state they
+answer what the others answer about the original (code that does not mention state names — what
+the tie generates for this property; listeners that do not look at the `state` / `source` /
+`target` of the built-in meta-events).  Related states (`RSR`): same queues, times, sent events,
+listeners and outside world; configuration, history memory and recorded entry / idle times
+substituted; evaluator states related by `C`; effect logs related entry by entry (`EffR`). -/
+
+/-- **One call of `execute_once` on the relabelled statechart returns the relabelled result**: the
+    same macro step with the names substituted and the transitions re-identified (or nothing), or
+    the same exception about the relabelled object; related states afterwards. -/
+theorem renaming_commutes_with_execute_once {S : Name → Prop} {ρ : Name → Name} {ι : Nat → Nat} {C : σ → σ → Prop}
+    {env env' : Env σ ω} (h : EnvR ρ ι C S env env') (clock : Int) (rs rs' : RS σ ω)
+    (hr : RSR ρ ι C rs rs') (hg : GoodSt S rs.st) :
+    OutcomeR ρ ι (executeOnce env clock rs).1 (executeOnce env' clock rs').1 ∧
+      RSR ρ ι C (executeOnce env clock rs).2 (executeOnce env' clock rs').2 ∧
+      GoodSt S (executeOnce env clock rs).2.st :=
+  equivariant_executeOnce h clock rs rs' hr hg
+
+/-- **Whole runs**: for every input history the relabelled statechart produces the original run
+    with the names substituted — call by call the relabelled outcome, ending, if at all, with the
+    same exception at the same call. -/
+theorem renaming_commutes_with_execution {S : Name → Prop} {ρ : Name → Name} {ι : Nat → Nat} {C : σ → σ → Prop}
+    {env env' : Env σ ω} (h : EnvR ρ ι C S env env') (clocks : List Int) (rs : RS σ ω)
+    (out : List (Except Err (Option MacroStep))) (hrun : C07.Run env clocks rs out) :
+    ∀ rs', RSR ρ ι C rs rs' → GoodSt S rs.st →
+      ∃ out', C07.Run env' clocks rs' out' ∧ List.Forall₂ (OutcomeR ρ ι) out out' := by
+  induction hrun with
+  | nil rs => intro rs' _ _; exact ⟨[], C07.Run.nil rs', List.Forall₂.nil⟩
+  | @ok t ts rs rs1 r out hx _ ih =>
+    intro rs' hr hg
+    obtain ⟨ho, hs, hgd⟩ := equivariant_executeOnce h t rs rs' hr hg
+    rw [hx] at ho hs hgd
+    cases h2 : executeOnce env' t rs' with
+    | mk r' s' =>
+      rw [h2] at ho hs
+      cases ho with
+      | ok m =>
+        obtain ⟨out', hrun', hf⟩ := ih s' hs hgd
+        exact ⟨_ :: out', C07.Run.ok h2 hrun', List.Forall₂.cons (.ok r) hf⟩
+  | @error t ts rs rs1 e hx =>
+    intro rs' hr hg
+    obtain ⟨ho, _, _⟩ := equivariant_executeOnce h t rs rs' hr hg
+    rw [hx] at ho
+    cases h2 : executeOnce env' t rs' with
+    | mk r' s' =>
+      rw [h2] at ho
+      cases ho with
+      | error e e' he =>
+        exact ⟨[.error e'], C07.Run.error h2, List.Forall₂.cons (.error e e' he) List.Forall₂.nil⟩
+
+/-- **`rename_state` preserves behaviour.**  `env` runs `c`; `env₂` runs the statechart
+    `rename_state(a, b)` produced (in the order the code leaves it); in between stands `c` with `b`
+    substituted for `a` everywhere (`mapNames`), which differs from the latter by declaration order
+    only (`rename_is_substitution`, C07).  If `b` takes the place of `a` in the order of the names
+    (`RenOK`, part of `EnvR`) and evaluator and listeners cannot tell the names apart, the renamed
+    statechart produces, for every input history, the original run with the name substituted. -/
+theorem rename_state_preserves_behaviour {S : Name → Prop} {C : σ → σ → Prop}
+    (c : Chart) (a b : Name) (ht : Tidy c) (hren : (c.renameState a b).1 = .ok ()) (hne : a ≠ b)
+    (env env₂ : Env σ ω) (h2 : env₂.chart = (c.renameState a b).2)
+    (h : EnvR (renameIn a b) id C S env { env₂ with chart := c.mapNames (renameIn a b) })
+    (hb : MemBlind env₂.E) (hw : WFChart (c.mapNames (renameIn a b)))
+    (clocks : List Int) (rs : RS σ ω) (out : List (Except Err (Option MacroStep))) (hrun : C07.Run env clocks rs out)
+    (rs₂ : RS σ ω) (hr : RSR (renameIn a b) id C rs rs₂) (hg : GoodSt S rs.st) :
+    ∃ out', C07.Run env₂ clocks rs₂ out' ∧ List.Forall₂ (OutcomeR (renameIn a b) id) out out' := by
+  obtain ⟨out', hrun1, hf⟩ := renaming_commutes_with_execution h clocks rs out hrun rs₂ hr hg
+  refine ⟨out', ?_, hf⟩
+  have hperm : EnvPerm ({ env₂ with chart := c.mapNames (renameIn a b) } : Env σ ω) env₂ :=
+    ⟨by rw [h2]; exact Sismic.rename_is_substitution c a b ht hren hne, rfl, rfl, rfl, rfl⟩
+  exact C07.declaration_order_free_run hperm hb hw clocks rs₂ out' hrun1 rs₂ ⟨rs₂.st.memory, rs₂.eff, rfl, fun _ => rfl⟩
+
+/-! non-vacuity of `EnvR`: a two-state statechart, the renaming `a ↦ b` (which keeps `a < r`), an
+evaluator that looks at nothing and no listeners -/
+section Example
+def exChart : Chart :=
+  { states := [{ name := "r", kind := .compound, initial := some "a" }, { name := "a", kind := .basic }],
+    parent := [("r", none), ("a", some "r")], children := [(none, ["r"]), (some "r", ["a"]), (some "a", [])],
+    transitions := [{ id := 0, source := "a", target := some "r", event := some "e" }] }
+def exS (n : Name) : Prop := n = "r" ∨ n = "a"
+def exRho (n : Name) : Name := if n = "a" then "b" else n
+def exE : Evaluator Unit :=
+  { guard := fun _ _ _ => some true, cond := fun _ _ _ _ _ => some true, exec := fun st _ _ => (st.ctx, some []),
+    freeze := fun c _ => c }
+def exEnv (c : Chart) : Env Unit Unit := { chart := c, E := exE, deliver := fun _ _ _ w => (.ok (), w, []) }
+
+example : EnvR exRho id (fun _ _ => True) exS (exEnv exChart) (exEnv (exChart.mapNames exRho)) where
+  ok := by
+    constructor
+    · rintro x y (rfl | rfl) (rfl | rfl) <;> simp [exRho]
+    · rintro x y (rfl | rfl) (rfl | rfl) <;> decide
+  ren := isRen_mapNames exRho exChart
+  names := by
+    refine ⟨?_, ?_, ?_, ?_, ?_, ?_, ?_, ?_⟩ <;> simp [exChart, exEnv, exS]
+  initial := by simp [exChart, exEnv, exS]
+  ignore := rfl
+  fuel := rfl
+  guard := fun _ _ _ _ _ _ _ => rfl
+  cond := fun _ _ _ _ _ _ _ _ _ => rfl
+  exec := fun _ _ _ _ _ _ _ => ⟨rfl, trivial⟩
+  freeze := fun _ _ _ _ => trivial
+  deliver := fun _ _ _ _ _ _ => rfl
+end Example
 
 /-- non-vacuity: a renaming of two of the names of a statechart that keeps their order, and is not
     order-preserving on other strings (`"b" ↦ "zz"` jumps over `"c"`) -/
